@@ -167,7 +167,11 @@ def run(tier, seed):
         pp.decide(v, judged, OWNED)
     block_machine_part(v, res.univ, cases, 1500 if quick else 12000, seed)
     # pack side: all well-typed (and ill-typed) values of the value universes under all 16 settings
-    vres = vp.run_mc(v, "U_C02" if not quick else "U_C03V", ["Inv_C02_Layout"])
+    # (Inv_C03_RefineP: the block-step PACK machine serialises every constructed packet like the generic one, failures included)
+    vres = vp.run_mc(v, "U_C02" if not quick else "U_C03V", ["Inv_C02_Layout", "Inv_C03_RefineP"])
+    if not quick:
+        for u in ("U_C12V", "U_C07V", "U_C19"):
+            vp.run_mc(v, u, ["Inv_C03_RefineP"])
     nn, mism = rv.replay_all(vres.univ, vres.emits, gens)
     v.cov["traces_validated_against_impl"] += nn
     by_case = {}
